@@ -108,7 +108,25 @@ def do_job(job):
 
     out = {}
     try:
-        manager, model, cf, rel = zp.setup_manager(job["spec"], job.get("cfg"))
+        first = job.get("first")
+        if first:
+            # call history: the same manager (and, for "rebound", the same model / potential object) was set up
+            # before for another form of the model (other units / labelling) and asked for its LTE velocity
+            manager, model, cf, rel = zp.setup_manager(first["spec"], job.get("cfg"))
+            try:
+                manager.wallSpeedLTE()
+            except Exception:  # noqa: BLE001  (whatever the first form answers is compared elsewhere)
+                pass
+            if first.get("mode") == "rebound":
+                cf, rel = model.rebind(job["spec"])
+                info, dset = zp.phase_info(job["spec"])
+                if first.get("reregister"):
+                    manager.registerModel(model)
+                manager.setupThermodynamicsHydrodynamics(info, dset)
+            else:
+                manager, model, cf, rel = zp.setup_manager(job["spec"], job.get("cfg"), manager=manager)
+        else:
+            manager, model, cf, rel = zp.setup_manager(job["spec"], job.get("cfg"))
     except Exception as exc:  # noqa: BLE001
         return {"setup_error": f"{type(exc).__name__}: {exc}"[:500]}
     if job.get("coll_dir"):
@@ -130,6 +148,33 @@ def do_job(job):
         except Exception as exc:  # noqa: BLE001
             out[w + "_error"] = f"{type(exc).__name__}: {exc}"[:500]
     return out
+
+
+HISTORY_KEYS = ("vJ", "vMin", "Tnucl", "alN", "psiN", "TMinHighT", "TMaxHighT", "TMinLowT", "TMaxLowT",
+                "tracedHighAtTn", "tracedLowAtTn", "phase1", "phase2")
+
+
+def history_worst(H, B):
+    """Largest relative difference between two {"hydro":…, "lte":…} results -> (value, name)."""
+    worst = (0.0, None)
+    for key in HISTORY_KEYS:
+        xa, xb = H["hydro"].get(key), B["hydro"].get(key)
+        xa = xa if isinstance(xa, list) else [xa]
+        xb = xb if isinstance(xb, list) else [xb]
+        scale = max([abs(t) for t in xb if isinstance(t, (int, float))] + [1e-300])
+        if len(xa) != len(xb):
+            worst = max(worst, (float("inf"), key))
+        for ta, tb in zip(xa, xb):
+            if isinstance(ta, (int, float)) and isinstance(tb, (int, float)):
+                worst = max(worst, (abs(ta - tb) / scale, key))
+            elif ta != tb:
+                worst = max(worst, (float("inf"), key))
+    la_, lb_ = H.get("lte"), B.get("lte")
+    if isinstance(la_, (int, float)) and isinstance(lb_, (int, float)):
+        worst = max(worst, (abs(la_ - lb_), "vwLTE"))
+    elif la_ != lb_ or (("lte_error" in H) != ("lte_error" in B)):
+        worst = max(worst, (float("inf"), "vwLTE"))
+    return worst
 
 
 def fresh_run(job, timeout=600):
